@@ -143,6 +143,24 @@ def replay_case(arg):
                                                 sum_log_y=float(np.nansum(np.log(data)))))
             if np.asarray(g).shape != exp_g.shape or not interp.close(np.asarray(g, dtype=float), exp_g, rtol=1e-7, atol=1e-7):
                 fail('Estimator', 'sensitivities', dict(got=np.asarray(g).tolist(), expected=exp_g.tolist()))
+            # ---- the SAME filter object scores another number of simulated individuals (6 instead of 4), then the first array
+            # again: every call is a function of the array it is given
+            while True:
+                sim6 = np.round(rng.uniform(0.6, 2.5, size=(6, n_obs, nt)), 3)
+                if min(np.var(sim6[:3], axis=0).min(), np.var(sim6[3:], axis=0).min(),
+                       np.var(np.log(sim6[:3]), axis=0).min(), np.var(np.log(sim6[3:]), axis=0).min()) > 1e-2:
+                    break
+            e6 = float(np.real(ref(sim6.astype(complex))))
+            v6 = plain.compute_log_likelihood(sim6.copy())
+            s6, g6 = plain.compute_sensitivities(sim6.copy())
+            v4 = plain.compute_log_likelihood(sim.copy())
+            cnt['evaluations'] = cnt.get('evaluations', 0) + 3
+            if not (interp.close(v6, e6) and interp.close(s6, e6)):
+                fail('Estimator', 'value_for_another_number_of_simulated_individuals', dict(got=[float(v6), float(s6)], expected=e6))
+            elif not interp.close(np.asarray(g6, dtype=float), grad_sim(ref, sim6), rtol=1e-7, atol=1e-7):
+                fail('Estimator', 'sensitivities_for_another_number_of_simulated_individuals', None)
+            if not interp.close(v4, exp_v):
+                fail('Estimator', 'value_after_another_number_of_simulated_individuals', dict(got=float(v4), expected=exp_v))
             # ---- missing-data / individual-permutation invariance ------------------------------
             pad = np.concatenate([data, np.full((1, n_obs, nt), np.nan)], axis=0)
             perm = rng.permutation(n_ids)
